@@ -79,7 +79,7 @@ def build(repo):
                          ('evaluation number is its point number:: eval_num == G.pts',) + T3,
                          ('(C04 ii) the incumbent record is overwritten only by an accepted improvement (ratio > 0) or after it was offered to the saved-point slot; '
                           'any other replacement targets a new slot or a slot other than kopt:: '
-                          'k >= NPT(G.nptver) or k != KOPT(G.mver) or G.better or G.savedver == G.mver', 'C04')],
+                          'k >= NPT(G.nptver) or k != KOPT(G.mver) or G.better or G.savedver == G.mver', 'C04', 'C08')],
                modifies=['G.pending', 'G.offered', 'G.mver', 'G.lastslot', 'G.nptver'],
                ghost_return=[('G.pending', 'False'), ('G.offered', '1'), ('G.mver', 'G.mver + 1'), ('G.lastslot', 'k'), ('G.nptver', 'G.nptver + 1')],
                ensures=['not G.pending', 'G.offered == 1', 'G.mver == old(G.mver) + 1', 'G.lastslot == k', 'G.nptver == old(G.nptver) + 1',
@@ -170,7 +170,7 @@ def build(repo):
     N2 = ('A-N2 (numeric): np.argsort returns distinct slots and the incumbent (distance 0) sorts first; a point that became the incumbent during this loop '
           'sits in a slot already visited:: knew != KOPT(G.mver)', 'C04')
     method('Controller.geometry_step', 'optexit', 'result', params={'knew': 'int'},
-           extra_req=[('(C04 ii) a geometry step never replaces the incumbent record unless it was offered to the saved-point slot:: knew != KOPT(G.mver) or G.savedver == G.mver', 'C04')])
+           extra_req=[('(C04 ii) a geometry step never replaces the incumbent record unless it was offered to the saved-point slot:: knew != KOPT(G.mver) or G.savedver == G.mver', 'C04', 'C08')])
     method('Controller.check_and_fix_geometry', ('bool', 'optexit'), 'result[1]', asserts={'before:Controller.geometry_step#1': [N1]})
     method('Controller.add_new_direction_while_growing', 'optexit', 'result')
     FRESH = ('the model holds only x0 when initialisation starts:: NPT(G.nptver) == 1', 'C04')
@@ -197,7 +197,7 @@ def build(repo):
                         ('A-N2 (numeric): np.argsort returns distinct slots with the incumbent (distance 0) first; it is skipped unless restarts.soft.move_xk, where it is the first '
                          'slot moved; a point that became the incumbent during this loop sits in a slot already visited:: '
                          '(i == 0 and params("restarts.soft.move_xk")) or knew != KOPT(G.mver)', 'C04')]},
-           loops={'for:i#0': [('(C04 ii) the incumbent record was offered to the saved-point slot before the first point is moved:: i_ > 0 or G.savedver == G.mver', 'C04')]},
+           loops={'for:i#0': [('(C04 ii) the incumbent record was offered to the saved-point slot before the first point is moved:: i_ > 0 or G.savedver == G.mver', 'C04', 'C08')]},
            extra_req=['nruns_so_far >= 0', 'no caller passes an extra point to save:: isnone(x_in_abs_coords_to_save)'],
            extra_mod=['G.restarts', 'self.last_successful_run'],
            ghost_return=[('G.restarts', 'G.restarts + (1 if isnone(result) else 0)')],
